@@ -749,26 +749,29 @@ func genWorld(rt *rapid.T, lowKeys bool) *world {
 	if rapid.IntRange(0, 3).Draw(rt, "sparse") == 0 {
 		o.Sparse = true
 	}
+	// a key value that lies in a trigger / error region is kept with probability 2^-k (a tree has 10-25 keys;
+	// rapid's IntRange is far from uniform, so small probabilities are built from fair coin flips)
+	strK, emptyK, numK := 4, 6, 3
+	if lowKeys {
+		strK, emptyK, numK = 5, 6, 3
+	}
 	o.Avoid = func(f *model.FieldInfo, x model.Val) bool {
 		if !f.IsKey {
 			return false
 		}
-		keepPct := -1
+		k := -1
 		switch {
 		case x.K == model.KStr && (keyHasEsc(x.S) || keyHasBS(x.S) || keyPathClean(x.S)):
-			keepPct = 6
-			if lowKeys {
-				keepPct = 3
-			}
+			k = strK
 		case x.K == model.KStr && x.S == "":
-			keepPct = 8 // with a schema gnmidiff only answers "received null value for key"
+			k = emptyK // with a schema gnmidiff only answers "received null value for key"
 		case keyBigNum(x):
-			keepPct = 30
+			k = numK
 		}
-		if keepPct < 0 {
+		if k < 0 {
 			return false
 		}
-		return rapid.IntRange(0, 99).Draw(rt, "keep-trigger-key") >= keepPct
+		return !chance(rt, "keep-trigger-key", k)
 	}
 	m := model.GenTree(rt, v, o)
 	return newWorld(m)
@@ -779,6 +782,16 @@ type genCfg struct {
 	conflicts bool // allow nested / duplicate delete-replace paths and overlapping writes (errors are legitimate)
 	f16Active bool
 	f70Active bool
+}
+
+// chance is true with probability 2^-k.
+func chance(rt *rapid.T, label string, k int) bool {
+	for i := 0; i < k; i++ {
+		if !rapid.Bool().Draw(rt, label) {
+			return false
+		}
+	}
+	return true
 }
 
 // pick draws an element of a non-empty int slice.
@@ -871,7 +884,7 @@ func (w *world) genRequest(rt *rapid.T, gc genCfg) *request {
 			o = op{leaf: pick(rt, all, "del-leaf-i"), anchor: -1}
 		} else {
 			a := rapid.IntRange(0, len(w.anchors)-1).Draw(rt, "del-anchor")
-			if a == 0 && rapid.IntRange(0, 9).Draw(rt, "del-root") != 0 && len(w.anchors) > 1 {
+			if a == 0 && !chance(rt, "del-root", 3) && len(w.anchors) > 1 {
 				a = rapid.IntRange(1, len(w.anchors)-1).Draw(rt, "del-anchor2")
 			}
 			o = op{leaf: -1, anchor: a}
@@ -914,7 +927,7 @@ func (w *world) genRequest(rt *rapid.T, gc genCfg) *request {
 	pct := rapid.SampledFrom([]int{0, 10, 30, 60}).Draw(rt, "upd-density")
 	// a deleted leaf that is written again is the trigger region of F70: rare but present
 	delLeaf := map[int]bool{}
-	if gc.f70Active && rapid.IntRange(0, 4).Draw(rt, "write-deleted-leaf") != 0 {
+	if gc.f70Active && !chance(rt, "write-deleted-leaf", 2) {
 		for _, o := range r.dels {
 			if o.leaf >= 0 {
 				delLeaf[o.leaf] = true
